@@ -188,10 +188,14 @@ func (p *FSM) Open(_ <-chan struct{}) (uint64, error) {
 		return 0, err
 	}
 	p.metrics.applied.Store(idx)
-	p.appliedFunc(idx)
-	lx, _ := readLocalIndex(db, sysLeaderIndex)
-	if lx != 0 {
+	// A table that records a leader index (a replicated table, also right after a reset to index 0) announces that index,
+	// its local index means nothing to those who wait for leader revisions.
+	if _, closer, lerr := db.Get(sysLeaderIndex); lerr == nil {
+		_ = closer.Close()
+		lx, _ := readLocalIndex(db, sysLeaderIndex)
 		p.appliedFunc(lx)
+	} else {
+		p.appliedFunc(idx)
 	}
 	return idx, nil
 }
